@@ -119,6 +119,36 @@ PROPS = {
              "served content; non-trivial = the directory holds >= 2 data files",
         technique="Coq proof (read-only open/persist emit no mutating effect for any directory; newest valid file served) + recorded file operations and directory hashes",
     ),
+    "C05": dict(
+        runs=[("crash", "", "crashrun", 400, 20000, 0)],
+        corr={"model:footer-choice", "model:open-result", "driver-error", "harness-error"}, corr_held=False,
+        spec={"spec:open-failed", "spec:open-panic", "spec:not-a-prefix", "spec:lost-synced-round", "spec:first-round-unopenable"},
+        spec_held=False,
+        rule="workloads of 2-6 persisted rounds (append persists, leveled partial compactions, forced full compactions, "
+             "sync on/off, 1 or 512 buffer pages) are recorded through a wrapping File; crash points: every operation "
+             "boundary and writes torn at bytes {1,19,20,21,43,44,len/2,len-1,P-1,P,P+1}; disk images: with syncing, the "
+             "synced prefix plus {none, all, random subset, all but one, only the last} of the un-synced page blocks and "
+             "un-synced length anywhere in between; without syncing, process kill (operations in order, last one torn); "
+             "unlinks and creates ordered.  Each image is reopened by the real code (success, chosen file and footer "
+             "offset, full content) and the same bytes are scanned by the model; the content must equal the reference "
+             "after a prefix no shorter than the last round completed before the crash point; non-trivial = at least one "
+             "round had completed before the crash point",
+        technique="Coq proof (backward footer scan: finds the last complete footer and ignores any tail) + crash-image enumeration on recorded traces, same bytes to model and code",
+    ),
+    "C19": dict(
+        runs=[("codec", "", "codecrun", 200, 3000, 0), ("coll", "flat", "flatrun", 160, 3000, 20)],
+        corr={"model:codec-word", "model:guard", "model:load-segment", "model:segment-layout", "model:roundtrip",
+              "driver-error", "harness-error"} | STRUCT | READS, corr_held=False,
+        spec={"spec:limits", "spec:gets", "spec:iter"}, spec_held=False,
+        rule="function level: 400 (op,keyLen,valLen) words per run at boundary lengths 0,1,2^16,2^24-1,2^24,2^24+1,2^28-1,"
+             "2^28,2^28+1 and random, 200 page alignments; API level: a batch with a 2^24-byte key (rejected with "
+             "ErrKeyTooLarge) between accepted operations, and a 2^24-1 byte key; byte level: segments with adversarial "
+             "keys/values (empty, 0x00/0xFF, footer-magic look-alikes, page-size multiples) persisted by the real store "
+             "and their file bytes parsed by the model's load_segment, layout compared with the model's writer; plus "
+             "flat lock-step cases mixing plain and Alloc-built batches with DeferredSort/CachePersisted sampled; "
+             "non-trivial = every case (each word / segment is checked)",
+        technique="Coq proof (word round-trip and exact limit guard; persisted segment round-trip; page alignment) + function-, byte- and API-level correspondence",
+    ),
     "C11": dict(
         runs=[TREE + (360, 6000, 28)],
         corr=STRUCT | READS | {"tmodel:cget"}, corr_held=True,
